@@ -129,6 +129,46 @@ fn ptext(text: &str) -> String {
 
 pub fn exec(toks: &[&str]) -> String {
     match toks {
+        // the serde forms of an AS number (serde_json as the format): three writers, three readers
+        ["aserde", n] => match n.parse::<u32>() {
+            Ok(n) => {
+                let a = Asn::from_u32(n);
+                let w = |f: &dyn Fn(&mut serde_json::Serializer<&mut Vec<u8>>) -> bool| -> Option<Vec<u8>> {
+                    let mut buf = Vec::new();
+                    let ok = { let mut ser = serde_json::Serializer::new(&mut buf); f(&mut ser) };
+                    if ok { Some(buf) } else { None }
+                };
+                let u = w(&|s| a.serialize_as_u32(s).is_ok());
+                let b = w(&|s| a.serialize_as_bare_str(s).is_ok());
+                let st = w(&|s| a.serialize_as_str(s).is_ok());
+                match (u, b, st) {
+                    (Some(u), Some(b), Some(st)) => {
+                        let rd = |t: &[u8], k: u8| -> Option<Asn> {
+                            let mut de = serde_json::Deserializer::from_slice(t);
+                            let r = match k { 0 => Asn::deserialize_from_u32(&mut de), 1 => Asn::deserialize_from_str(&mut de), _ => Asn::deserialize_from_any(&mut de) };
+                            r.ok().filter(|_| de.end().is_ok())
+                        };
+                        let back = rd(&u, 0) == Some(a) && rd(&b, 1) == Some(a) && rd(&st, 1) == Some(a)
+                            && rd(&u, 2) == Some(a) && rd(&b, 2) == Some(a) && rd(&st, 2) == Some(a);
+                        format!("u={} b={} s={} back={}", crate::rng::hex(&u), crate::rng::hex(&b), crate::rng::hex(&st), back)
+                    }
+                    _ => "write-failed".into(),
+                }
+            }
+            Err(_) => "bad-op".into(),
+        },
+        // one JSON text through the three readers
+        ["aany", hx] => match crate::rng::unhex(hx).and_then(|b| String::from_utf8(b).ok()) {
+            Some(t) => {
+                let rd = |k: u8| -> String {
+                    let mut de = serde_json::Deserializer::from_str(&t);
+                    let r = match k { 0 => Asn::deserialize_from_u32(&mut de), 1 => Asn::deserialize_from_str(&mut de), _ => Asn::deserialize_from_any(&mut de) };
+                    match r { Ok(a) if de.end().is_ok() => a.into_u32().to_string(), _ => "err".into() }
+                };
+                format!("u32={} str={} any={}", rd(0), rd(1), rd(2))
+            }
+            None => "bad-op".into(),
+        },
         ["ptext", hx] => match crate::rng::unhex(hx).and_then(|b| String::from_utf8(b).ok()) {
             Some(t) => ptext(&t),
             None => "bad-op".into(),
@@ -491,6 +531,13 @@ pub fn generate(ctx: &mut Ctx) {
         texts.sort(); texts.dedup();
         for t in &texts {
             ctx.case(&format!("ptext {}", crate::rng::hex(t.as_bytes())));
+        }
+        // serde forms of AS numbers
+        for n in [0u32, 1, 9, 10, 255, 256, 65535, 65536, 4294967294, 4294967295] { ctx.case(&format!("aserde {}", n)); }
+        for _ in 0..200 { ctx.case(&format!("aserde {}", rng.next() as u32)); }
+        for t in ["0", "5", "4294967295", "4294967296", "-1", "-0", "5.0", "5e0", "05", "\"5\"", "\"AS5\"", "\"as5\"", "\"aS5\"", "\"AS\"", "\"\"", "\"AS4294967296\"", "\"+5\"", "\"AS+5\"",
+                  "\"AS 5\"", "\"5 \"", " 5 ", "\"\\u0041S5\"", "\"A\\u0053\\u0035\"", "null", "true", "[5]", "{}", "\"AS5\" x", "5,", "", "\"ASAS5\"", "\"\u{e9}5\"", "18446744073709551615", "18446744073709551616"] {
+            ctx.case(&format!("aany {}", crate::rng::hex(t.as_bytes())));
         }
     }
     // AS multisets
